@@ -186,6 +186,9 @@ pub struct Conn {
     pub attached: bool,
     pub ident: Option<Vec<u8>>,
     pub rel_logged: (bool, bool),
+    pub seen_logged: (bool, bool, bool),
+    /// the scripted peer has closed / reset its end: it writes nothing more
+    pub closed: bool,
 }
 pub struct Pending {
     pub fut: BoxFut<'static, ZmqResult<PeerIdentity>>,
@@ -347,6 +350,24 @@ impl Env {
             }
             self.ev(e);
         }
+        for c in ids.iter().copied() {
+            // the socket has observed the end of this connection
+            let (r, w, logged) = {
+                let k = &self.conns[&c];
+                (k.to_lib.seen(), k.from_lib.seen(), k.seen_logged)
+            };
+            let now = (r.0, r.1, w.2);
+            if now.0 && !logged.0 {
+                self.ev(json!({"ev":"observed","c":c,"how":"eof"}));
+            }
+            if now.1 && !logged.1 {
+                self.ev(json!({"ev":"observed","c":c,"how":"rerr"}));
+            }
+            if now.2 && !logged.2 {
+                self.ev(json!({"ev":"observed","c":c,"how":"werr"}));
+            }
+            self.conns.get_mut(&c).unwrap().seen_logged = now;
+        }
         for c in ids {
             let (rd, wd, logged) = {
                 let k = &self.conns[&c];
@@ -405,7 +426,18 @@ impl Env {
     /// ops that do not need `&mut socket`
     pub async fn env_op(&mut self, op: &Value) -> bool {
         let name = op["op"].as_str().unwrap_or("");
-        let c = op.get("c").and_then(|v| v.as_i64()).unwrap_or(0);
+        let mut c = op.get("c").and_then(|v| v.as_i64()).unwrap_or(0);
+        if name == "preply" {
+            c = self.last_wire_conn.unwrap_or(0);
+        }
+        if matches!(name, "psend" | "preply" | "pbegin" | "pfinish" | "pbytes") && self.conns.get(&c).map(|k| k.closed).unwrap_or(false) {
+            return true; // a peer that has closed its end writes nothing more
+        }
+        if matches!(name, "pclose" | "pfail") {
+            if let Some(k) = self.conns.get_mut(&c) {
+                k.closed = true;
+            }
+        }
         match name {
             "attach" | "attach_raw" => {
                 let (to_lib, from_lib) = (H::new(), H::new());
@@ -422,7 +454,7 @@ impl Env {
                     from_lib.break_pipe(kind_of(k));
                 }
                 let auto_ident = op.get("ident").and_then(|v| v.as_str()).map(|s| s.is_empty()).unwrap_or(true);
-                self.conns.insert(c, Conn { auto_ident, to_lib: to_lib.clone(), from_lib: from_lib.clone(), scanned: 0, attached: false, ident: None, rel_logged: (false, false) });
+                self.conns.insert(c, Conn { auto_ident, to_lib: to_lib.clone(), from_lib: from_lib.clone(), scanned: 0, attached: false, ident: None, rel_logged: (false, false), seen_logged: (false, false, false), closed: false });
                 let fut: BoxFut<'static, ZmqResult<PeerIdentity>> = Box::pin(zeromq::__verif::attach(self.backend.clone(), R(to_lib), W(from_lib)));
                 self.attaching.insert(c, Pending { fut, waker: CountWaker::new(), polls: 0, seen_wakes: 0 });
                 self.ev(json!({"ev":"attach_call","c":c,"ptype":op.get("ptype").cloned().unwrap_or(Value::Null),"ident":op.get("ident").cloned().unwrap_or(Value::Null)}));
